@@ -14,7 +14,7 @@ NAMES = ["q1", "q2", "c1", "o1"]
 
 def column(rng, kind, n, y):
     shape = rng.choice(["constant", "all_nan", "near_unique", "many_rare", "spike", "ties", "plain", "two_values",
-                        "rare_tail", "nan_one_class", "rare_top", "ulps", "zero_spike"])
+                        "rare_tail", "nan_one_class", "rare_top", "ulps", "zero_spike", "bigint"])
     if shape == "nan_one_class":
         # observed only inside one target class (missing everywhere else), >= 2 frequent modalities
         cls0 = rng.choice(sorted(set(y)))
@@ -51,6 +51,12 @@ def column(rng, kind, n, y):
             # neighbouring doubles: quantile boundaries that differ in their 16th-17th significant digit only
             base, step = rng.choice([(1.0, 2.0 ** -52), (2.0 ** 60, 256.0), (-1.0, 2.0 ** -53), (123.0, 2.0 ** -46)])
             col = [base + rng.randint(0, 9) * step for _ in range(n)]
+        elif shape == "bigint":
+            # integer identifiers above 2**53 that differ by less than the float64 spacing (known finding O49)
+            base_ = rng.choice([10 ** 17, 2 ** 60])
+            k = rng.choice([5, 9])
+            col = [int(base_ + 3 * rng.randrange(k) + 1) for _ in range(n)]
+            return col, None, shape
         elif shape == "zero_spike":
             # 0.0 is a quantile boundary, with a rare bucket just below it (and often missing values)
             neg = rng.choice([0.02, 0.03, 0.06])
@@ -162,7 +168,10 @@ def build(case):
     cols = {}
     for name, f in case["features"].items():
         vals = decs(f["col"])
-        cols[name] = np.array(vals, dtype=float) if f["kind"] == "quant" else pd.Series(vals, dtype=object)
+        if f["kind"] == "quant" and f.get("shape") == "bigint":
+            cols[name] = np.array(vals, dtype="int64")
+        else:
+            cols[name] = np.array(vals, dtype=float) if f["kind"] == "quant" else pd.Series(vals, dtype=object)
     return pd.DataFrame(cols), pd.Series(case["y"])
 
 
@@ -408,6 +417,9 @@ class C08(Prop):
             sigs.append("chi2_zero_expected_frequency")
         if msg.startswith("history() lists"):
             sigs.append("history_keeps_dropped_features")
+        if any(f.get("shape") == "bigint" for f in case["features"].values()) and (
+                out.get("fit") == "internal" or "well-formed partition" in msg or msg.startswith("property predicate")):
+            sigs.append("int64_above_2_53_labels_collide")
         if out.get("where"):
             sigs.append("internal:" + out["where"].split(":")[0] + ":" + out["where"].split(":")[-1])
         return sigs
